@@ -72,6 +72,11 @@ MODES = {
     "countm_ctx": ["--count-matches", "-B1"],
     "passthru": ["--no-heading", "-n", "--passthru"],
     "passthru_heading": ["--heading", "--passthru"],
+    # multi-line search (the pattern of these modes can match the line terminator): the whole file is read into one
+    # buffer that a worker keeps from file to file
+    "multiline": ["--no-heading", "-n", "-U"],
+    "multiline_countm": ["-U", "--count-matches"],
+    "multiline_json": ["--json", "-U"],
 }
 REQUIRED_MODES = ["heading", "noheading", "context", "count", "files_with_matches", "json", "files"]
 PATTERNS = {"many": "foo", "few": "needle", "none": "zzzq"}
@@ -257,7 +262,7 @@ def base_args(scn, pre):
     if scn.get("links"):
         a += ["-L"]
     if scn["mode"] != "files":
-        a += ["-e", PATTERNS[scn["pattern"]]]
+        a += ["-e", PATTERNS[scn["pattern"]] + ("\\s?" if scn["mode"].startswith("multiline") else "")]
     return a
 
 
@@ -268,7 +273,8 @@ def make_scenarios(tier, seed):
         plan = ([(m, "many") for m in REQUIRED_MODES] + [(m, "few") for m in REQUIRED_MODES] +
                 [("heading_context", "few"), ("quiet", "many"), ("heading", "none"), ("only_matching", "many"),
                  ("count_zero", "few"), ("vimgrep_after", "many"), ("count_ctx", "many"), ("files_ctx", "few"), ("json_ctx", "few"),
-                 ("countm_ctx", "many"), ("passthru", "few"), ("passthru_heading", "none")])
+                 ("countm_ctx", "many"), ("passthru", "few"), ("passthru_heading", "none"),
+                 ("multiline", "many"), ("multiline", "few"), ("multiline_json", "many"), ("multiline_countm", "many"), ("multiline", "many")])
         nrun, nsort = 22, 3
     else:
         plan = []
@@ -286,7 +292,7 @@ def make_scenarios(tier, seed):
         rng.shuffle(threads)
         scns.append({
             "gid": i, "seed": rng.randrange(1 << 30), "tier": tier, "mode": mode, "pattern": pat,
-            "dense": (i % 3 == 0 and mode not in ("json", "json_ctx")) or (tier == "quick" and pat == "many" and mode in ("heading", "context")),
+            "dense": (i % 3 == 0 and mode not in ("json", "json_ctx", "multiline_json")) or (tier == "quick" and pat == "many" and mode in ("heading", "context")),
             "pre": i % 2 == 0, "ignores": i % 4 == 1, "links": i % 3 == 2 and i % 5 != 4,
             "threads": threads,
             # CPU sets: None = unrestricted, else number of CPUs the run is confined to
@@ -425,7 +431,7 @@ class Interner:
     def tokens(self, data, mode):
         parts = data.split(b"\n")
         lines = [p + b"\n" for p in parts[:-1]] + ([parts[-1]] if parts[-1] else [])
-        if mode in ("json", "json_ctx"):
+        if mode in ("json", "json_ctx", "multiline_json"):
             # the trailing summary message holds totals, not a file's results; elapsed times are not reproducible
             if lines and b'"type":"summary"' in lines[-1]:
                 lines = lines[:-1]
